@@ -86,6 +86,87 @@ def _fold_or_none(repo, fi, e):
     except (ValueError, AnalysisError):
         return None
 
+def _line_template(repo, fi, e):
+    """A string-building expression as a flat list of constant pieces (str) and ast.Name holes: str.format with positional
+    fields, %-formatting with %s, `+` concatenation and f-strings without conversions; None when it is none of these."""
+    if isinstance(e, ast.Name):
+        return [e]
+    c = _fold_or_none(repo, fi, e)
+    if isinstance(c, str):
+        return [c]
+    if isinstance(e, ast.BinOp) and isinstance(e.op, ast.Add):
+        a, b = _line_template(repo, fi, e.left), _line_template(repo, fi, e.right)
+        return None if a is None or b is None else _merge_tpl(a + b)
+    if isinstance(e, ast.JoinedStr):
+        out = []
+        for v in e.values:
+            if isinstance(v, ast.Constant) and isinstance(v.value, str):
+                out.append(v.value)
+            elif isinstance(v, ast.FormattedValue) and v.conversion == -1 and v.format_spec is None and isinstance(v.value, ast.Name):
+                out.append(v.value)
+            else:
+                return None
+        return _merge_tpl(out)
+    if isinstance(e, ast.Call) and isinstance(e.func, ast.Attribute) and e.func.attr == 'format' and not e.keywords:
+        fmt = _fold_or_none(repo, fi, e.func.value)
+        if not isinstance(fmt, str) or not all(isinstance(a, ast.Name) for a in e.args):
+            return None
+        import string
+        out, auto = [], 0
+        try:
+            for lit, field, spec, conv in string.Formatter().parse(fmt):
+                if lit:
+                    out.append(lit)
+                if field is None:
+                    continue
+                if spec or conv:
+                    return None
+                if field == '':
+                    i, auto = auto, auto + 1
+                elif field.isdigit():
+                    i = int(field)
+                else:
+                    return None
+                if i >= len(e.args):
+                    return None
+                out.append(e.args[i])
+        except ValueError:
+            return None
+        return _merge_tpl(out)
+    if isinstance(e, ast.BinOp) and isinstance(e.op, ast.Mod):
+        fmt = _fold_or_none(repo, fi, e.left)
+        args = e.right.elts if isinstance(e.right, ast.Tuple) else [e.right]
+        if not isinstance(fmt, str) or not all(isinstance(a, ast.Name) for a in args):
+            return None
+        pieces = fmt.split('%s')
+        if len(pieces) != len(args) + 1 or any('%' in p_ for p_ in pieces):
+            return None
+        out = []
+        for i, p_ in enumerate(pieces):
+            if p_:
+                out.append(p_)
+            if i < len(args):
+                out.append(args[i])
+        return _merge_tpl(out)
+    return None
+
+
+def _merge_tpl(parts):
+    out = []
+    for p_ in parts:
+        if isinstance(p_, str) and out and isinstance(out[-1], str):
+            out[-1] += p_
+        elif p_ != '':
+            out.append(p_)
+    return out
+
+
+def _tpl_text(tpl):
+    if tpl is None:
+        return 'unrecognised'
+    return ''.join('<%s>' % x.id if isinstance(x, ast.Name) else x for x in tpl)
+
+
 
 def _eof_edge(test, names):
     """'T'/'F': the branch of `test` taken when the read result (a name in `names`) is
@@ -1101,10 +1182,16 @@ def _roles(ctx):
         if len(c.args) == 2 and isinstance(c.args[1], ast.Attribute):
             d = dotted(c.args[0]) or ''
             ev[d.split('.')[-1]] = c.args[1].attr
+    hs = repo.cls(HS)
     for need in ('begin_request', 'end_request', 'begin_response', 'response_data', 'end_response'):
         if need not in ev:
-            raise AnalysisError('HTTP session event %s is not wired to the recorder session' % need)
-    hs = repo.cls(HS)
+            # which bytes reach the recorder is C04's subject; the record format rules still apply to the session
+            # method that carries the event's name
+            if repo.find_method(hs, need) is None:
+                raise AnalysisError('HTTP session event %s is neither wired to nor a method of the recorder session' % need)
+            ev[need] = need
+            ctx.check.remark('C05: HTTP session event %s is not wired to the recorder session in %s (decided by C04); the '
+                             'recorder-session method of that name is analysed' % (need, cb.qual))
     for need in set(ev.values()):
         if repo.find_method(hs, need) is None and need != 'close':
             raise AnalysisError('recorder session method %s not found' % need)
@@ -1154,8 +1241,16 @@ def _response_file_fields(ctx, roles):
                 out.add(norm_text(r))
             elif isinstance(r, ast.Attribute) and r.attr == 'block_file':
                 out.add(norm_text(r))
+    br0 = repo.find_method(hs, roles['event']['begin_response'])
     if not out:
-        raise AnalysisError('the response_data listener no longer appends its argument to a file')
+        # fall back to the file that the begin_response listener makes the response record's block
+        for n in walk_no_nested(br0.node):
+            if isinstance(n, ast.Assign) and any(isinstance(t, ast.Attribute) and t.attr == 'block_file' for t in n.targets) and U.is_self_attr(n.value):
+                out.add(norm_text(n.value))
+        ctx.check.remark('C05: the response_data listener does not append its argument unchanged to a file (decided by C04); the response '
+                         'block file is taken from the begin_response listener')
+    if not out:
+        raise AnalysisError('the file that receives the response bytes cannot be identified')
     # record.block_file = self._response_temp_file in the begin_response listener makes both names one file
     br = repo.find_method(hs, roles['event']['begin_response'])
     for n in walk_no_nested(br.node):
@@ -1820,17 +1915,18 @@ def _nv_serialiser(ctx):
             ck.expect(g_ok, 'C05-D5', ts.qual, cons[:80] + ' only when self._wrap_width',
                       'values are folded over several lines even when no wrap width was asked for', ts.loc(c))
             continue
-        fmt = None
-        if isinstance(a, ast.Call) and isinstance(a.func, ast.Attribute) and a.func.attr == 'format':
-            fmt = _fold_or_none(repo, ts, a.func.value)
-            nargs = len(a.args)
-        okf = fmt in ('{0}: {1}', '{}: {}', '{0}:{1}', '{}:{}') and nargs == 2 or fmt in ('{0}:', '{}:') and nargs == 1
+        tpl = _line_template(repo, ts, a)
+        fmt = tpl
+        targs = [x for x in (tpl or []) if isinstance(x, ast.Name)]
+        consts = [x for x in (tpl or []) if not isinstance(x, ast.Name)]
+        okf = tpl is not None and (len(tpl) == 3 and isinstance(tpl[0], ast.Name) and tpl[1] in (': ', ':') and isinstance(tpl[2], ast.Name)
+                                   or len(tpl) == 2 and isinstance(tpl[0], ast.Name) and tpl[1] == ':')
         if okf:
             lv = [t for t in ast.walk(in_loop[0].target)] if in_loop else []
             names = [t.id for t in lv if isinstance(t, ast.Name)]
-            okf = len(in_loop) == 1 and [x.id if isinstance(x, ast.Name) else None for x in a.args] == names[:len(a.args)] \
+            okf = len(in_loop) == 1 and [x.id for x in targs] == names[:len(targs)] \
                 and isinstance(in_loop[0].iter, ast.Call) and U.is_self_attr(in_loop[0].iter.func, 'get_all')
-        ck.expect(okf, 'C05-D5', ts.qual, cons, 'a header line is not exactly "<name>: <value>" of one pair of get_all() (format %r)' % (fmt,),
+        ck.expect(okf, 'C05-D5', ts.qual, cons, 'a header line is not exactly "<name>: <value>" of one pair of get_all() (template %s)' % (_tpl_text(fmt),),
                   ts.loc(c))
     ck.expect(nline >= 2, 'C05-D5', ts.qual, '%d line forms' % nline, 'to_str no longer emits the "name: value" lines', ts.loc())
     ga = repo.func(NVR + '.get_all')
